@@ -123,6 +123,7 @@ type entryInfo struct {
 	alloc  Term
 	lets   map[string]tv
 	measure []Term
+	modRefs map[string][]Term
 }
 
 func (st *State) clone() *State {
@@ -204,6 +205,7 @@ type Exec struct {
 	allocHook func(st *State, fc *FnCtx, in ssa.Instruction, n Term, elem types.Type)
 	findings  map[string][]Finding
 	curEnv    *SpecEnv
+	pendingFn *Term
 }
 
 func (ex *Exec) arrComp(h *HeapView, elem types.Type) Term {
@@ -234,7 +236,7 @@ func (ex *Exec) declare(name, so string) {
 
 // define introduces a named abbreviation for a term to keep VCs linear in size.
 func (ex *Exec) define(st *State, prefix string, t Term) Term {
-	if len(t.S) < 24 {
+	if len(t.S) < 24 || strings.HasPrefix(t.S, "(mk-slice ") || strings.HasPrefix(t.S, "(mk-iface ") {
 		return t
 	}
 	ex.counter++
@@ -288,11 +290,18 @@ func skey(t types.Type) string {
 			return "Cplx"
 		}
 		return "bv64"
-	case *types.Pointer, *types.Map, *types.Chan, *types.Signature:
-		return "Int"
+	case *types.Pointer:
+		return "P<" + typeKey(tt.Elem()) + ">"
+	case *types.Map:
+		return "M<" + typeKey(tt) + ">"
+	case *types.Chan, *types.Signature:
+		return "Fn"
 	case *types.Slice:
-		return "Slice"
+		return "Sl<" + skey(tt.Elem()) + ">"
 	case *types.Interface, *types.TypeParam:
+		if n, ok := t.(*types.Named); ok {
+			return "I<" + typeKey(n) + ">"
+		}
 		return "Iface"
 	case *types.Struct:
 		return "S<" + structKey(t) + ">"
